@@ -48,6 +48,9 @@ pub mod scheduler;
 pub mod util;
 pub mod vm;
 
+#[cfg(mmtk_verif)]
+pub mod verif;
+
 pub use crate::plan::{
     AllocationSemantics, BarrierSelector, Mutator, MutatorContext, ObjectQueue, Plan,
 };
